@@ -466,7 +466,9 @@ pub mod verif_hooks {
         let mut m = HashMap::new();
         m.insert(
             FileName::Stdin,
-            v.into_iter().map(|(l, h)| Range::new(l, h)).collect::<Vec<_>>(),
+            v.into_iter()
+                .map(|(l, h)| Range::new(l, h))
+                .collect::<Vec<_>>(),
         );
         normalize_ranges(&mut m);
         m.remove(&FileName::Stdin)
@@ -478,12 +480,19 @@ pub mod verif_hooks {
 
     /// (contains_line(line), contains_range(lo, hi)) on `FileLines::from_ranges({stdin: v})`;
     /// `None` selects the empty map.
-    pub fn query(v: Option<Vec<(usize, usize)>>, line: usize, lo: usize, hi: usize) -> (bool, bool) {
+    pub fn query(
+        v: Option<Vec<(usize, usize)>>,
+        line: usize,
+        lo: usize,
+        hi: usize,
+    ) -> (bool, bool) {
         let mut m = HashMap::new();
         if let Some(v) = v {
             m.insert(
                 FileName::Stdin,
-                v.into_iter().map(|(l, h)| Range::new(l, h)).collect::<Vec<_>>(),
+                v.into_iter()
+                    .map(|(l, h)| Range::new(l, h))
+                    .collect::<Vec<_>>(),
             );
         }
         let fl = FileLines::from_ranges(m);
